@@ -168,6 +168,11 @@ type Universe struct {
 	API    *serix.API
 	Seed   int64
 	Static bool
+	// Boundary universe: Fixed holds the explicit values of a shape (used instead of generated
+	// ones), FixedLabel a name per value for the evidence.
+	Boundary   bool
+	Fixed      map[*Shape][]*Val
+	FixedLabel map[*Val]string
 	Shapes []*Shape // top-level shapes
 	Impl8  []*Shape // implementations of Any8
 	Impl32 []*Shape // implementations of Any32
